@@ -24,15 +24,15 @@ RULE = (
 )
 BOUNDS = {
     "quick": "m,n<=4, all 2^(p-1)-type compositions for every rank 0..p, values {4,2,1,1/2}, factors id/monomial/Householder, R=1..p",
-    "thorough": "m,n<=5, values {4,2,1,1/2,1/4}, 2 fill rows",
+    "thorough": "m,n<=6, values {4,2,1,1/2,1/4}, 3 fill rows",
 }
 WALL_BUDGET = {"quick": 300, "thorough": 2400}
 ASSUMPTIONS = ["expected singular values are the prescribed ones (inputs are built as U diag(s) V^H from exactly/numerically unitary factors)"]
 
 
 def cases(tier, seed):
-    S = 4 if tier == "quick" else 5
-    rows = 1 if tier == "quick" else 2
+    S = 4 if tier == "quick" else 6
+    rows = 1 if tier == "quick" else 3
     out = []
     for m, n in itertools.product(range(1, S + 1), repeat=2):
         p = min(m, n)
